@@ -9,6 +9,10 @@ every constructor parameter that is an instance attribute and every documented t
 (callables and per-move scratch attributes excepted), identical second-generation
 dictionary.  Simulation-level settings are checked the same way on every driver that
 offers to_dict/from_dict, after the generator and step counter have advanced.
+Besides generic non-default values there is a deterministic boundary round (every
+parameter that has a falsy boundary value takes it: probability 0.0, bias 0.0, default
+label 0, False flags) and boundary draws in the random rounds; the live generators of
+the original and the rebuilt simulation are compared as well.
 """
 from __future__ import annotations
 
